@@ -53,9 +53,12 @@ func (v *computeHashVisitor) VisitPartialInnerHashOp(op partialInnerHashOp) hash
 
 func (v *computeHashVisitor) VisitGetCacheOp(op getCacheOp) hashing.Digest {
 	hash, ok := v.cache.Get(op.Position().Bytes())
-	if !ok {
+	if !ok || len(hash) != int(v.hasher.Len())/8 {
 		// the cache is an audit path supplied by an untrusted server:
-		// a missing entry makes the proof invalid, it must not crash the verifier
+		// a missing entry makes the proof invalid, it must not crash the verifier;
+		// an entry that is not a digest of the hasher's length is no entry at all
+		// (two neighbouring entries hashed as l||r would otherwise stay valid when
+		// bytes are moved from one to the other)
 		if v.missing == nil {
 			v.missing = op.Position()
 		}
